@@ -17,7 +17,9 @@ SANITIZE = True   # memory safety (moved-from destructor, at(index)) is part of 
 ENUM = True
 
 COUNT = 3
-MK_E, MK_D, MK_I, MOVE_C, MOVE_A, DESTROY, DET_E, DET_D, DET_I, IS_TRIPPED, WRITE, READ, POLL_READ = range(13)
+(MK_E, MK_D, MK_I, MOVE_C, MOVE_A, DESTROY, DET_E, DET_D, DET_I, IS_TRIPPED, WRITE, READ, POLL_READ,
+ RELEASE, SDET_E, SDET_D, SDET_I, S_IS_TRIPPED, S_POLL_READ) = range(19)
+POLL_OPS = (IS_TRIPPED, POLL_READ, S_IS_TRIPPED, S_POLL_READ)
 MO_RELAXED, MO_CONSUME, MO_ACQUIRE, MO_RELEASE, MO_ACQ_REL, MO_SEQ_CST = range(6)
 
 CW = ((14, 0), (1, 1), (1, 3))   # choices are ignored by this component (no blocking, no weak CAS)
@@ -25,7 +27,7 @@ CW = ((14, 0), (1, 1), (1, 3))   # choices are ignored by this component (no blo
 
 def _mk(kind, slot, spec):
     """spec = ('E', l) | ('D',) | ('I', i); kind = 'T' trigger / 'D' detector"""
-    base = MK_E if kind == 'T' else DET_E
+    base = {'T': MK_E, 'D': DET_E, 'S': SDET_E}[kind]
     if spec[0] == 'E':
         return [base, slot, spec[1]]
     if spec[0] == 'D':
@@ -46,7 +48,7 @@ def _random_prog(rng, nexp, ndata, n):
     prog = []
     for _ in range(n):
         k = rng.weighted([(5, 'mk'), (3, 'movec'), (3, 'movea'), (6, 'destroy'), (4, 'det'), (7, 'poll'),
-                          (2, 'data'), (2, 'wild')])
+                          (2, 'data'), (2, 'wild'), (2, 'release'), (2, 'sdet'), (4, 'spoll')])
         free_t = [s for s in range(3) if s not in trig]
         free_d = [s for s in range(3) if s not in det]
         if k == 'mk' and free_t:
@@ -79,6 +81,15 @@ def _random_prog(rng, nexp, ndata, n):
                 prog.append([POLL_READ, s, rng.below(ndata)])
             else:
                 prog.append([IS_TRIPPED, s])
+        elif k == 'release' and nexp:
+            prog.append([RELEASE, rng.below(nexp)])
+        elif k == 'sdet':
+            prog.append(_mk('S', rng.below(2), rng.pick(_line_specs(nexp, rng.chance(1, 6)))))
+        elif k == 'spoll':
+            if ndata and rng.chance(1, 3):
+                prog.append([S_POLL_READ, rng.below(2), rng.below(ndata)])
+            else:
+                prog.append([S_IS_TRIPPED, rng.below(2)])
         elif k == 'data' and ndata:
             d = rng.below(ndata)
             prog.append([WRITE, d, rng.range(1, 9)] if rng.chance(1, 2) else [READ, d])
@@ -124,15 +135,53 @@ def _publication(rng, nt, nexp):
     if rng.chance(1, 2):
         p.append([READ, 0])
     progs = [p]
-    for _ in range(1, nt):
-        q = [_mk('D', 0, X)]
+    shared = rng.chance(1, 2)      # one detector object, created by thread 1 (or whoever comes first), polled by all readers
+    for t in range(1, nt):
+        if shared:
+            q = [_mk('S', 0, X)] if (t == 1 or rng.chance(1, 3)) else []
+        else:
+            q = [_mk('D', 0, X)]
         if rng.chance(1, 3):
             Y = rng.pick(others)
             q += [_mk('T', 0, Y)]
         for _ in range(rng.range(1, 4)):
-            q.append(rng.weighted([(5, [POLL_READ, 0, 0]), (2, [IS_TRIPPED, 0])]))
-        if len(q) > 1 and q[1][0] in (MK_E, MK_D, MK_I) and rng.chance(1, 2):
+            if shared:
+                q.append(rng.weighted([(5, [S_POLL_READ, 0, 0]), (2, [S_IS_TRIPPED, 0])]))
+            else:
+                q.append(rng.weighted([(5, [POLL_READ, 0, 0]), (2, [IS_TRIPPED, 0])]))
+        if any(o[0] in (MK_E, MK_D, MK_I) for o in q) and rng.chance(1, 2):
             q.append([DESTROY, 0])
+        progs.append(q)
+    return progs
+
+
+def _outlives(rng, nt, nexp):
+    """a detector outlives every other owner of an explicit line: detector on l, trigger on l, the harness drops its
+    own reference (as a client that moved its handle into the trigger), the trigger is destroyed (trips the line and
+    gives up the last non-detector reference), the detector is polled - by its creator and, when shared, by others"""
+    l = rng.below(nexp)
+    shared = nt > 1 and rng.chance(2, 3)
+    mkdet = _mk('S' if shared else 'D', 0, ('E', l))
+    poll = [S_IS_TRIPPED, 0] if shared else [IS_TRIPPED, 0]
+    a = [mkdet, [MK_E, 0, l]]
+    if rng.chance(1, 3):
+        a.append(poll)
+    if rng.chance(1, 3):
+        a += [[MOVE_C, 0, 1], [RELEASE, l], rng.pick([[DESTROY, 0], [DESTROY, 1]]), [DESTROY, rng.below(2)]]
+    else:
+        a += [[RELEASE, l], [DESTROY, 0]]
+    a += [poll] * rng.range(1, 2)
+    if rng.chance(1, 3):
+        a.append([MK_E, 2, l])          # refused: the harness no longer has the line
+    progs = [a]
+    for _ in range(1, nt):
+        q = []
+        if not shared:
+            q.append(_mk('D', 0, ('E', l)))
+        for _ in range(rng.range(1, 3)):
+            q.append(poll)
+        if rng.chance(1, 4):
+            q.append([RELEASE, l])
         progs.append(q)
     return progs
 
@@ -140,6 +189,16 @@ def _publication(rng, nt, nexp):
 def gen(rng, tier, spec):
     nexp = rng.range(0, 3)
     mode = rng.below(10)
+    if mode == 4:
+        nexp = max(nexp, 1)
+        nt = rng.weighted([(3, 1), (5, 2), (3, 3)])
+        progs = _outlives(rng, nt, nexp)
+        kind = rng.below(3)
+        if kind == 0:
+            sched = R.sched_boundary(rng, nt, 0, rng.range(4, 12), rng.range(0, 30), CW)
+        else:
+            sched = R.any_sched(rng, nt, 50, CW)
+        return {'cfg': [COUNT, nexp, 0, 0], 'progs': progs, 'sched': sched}
     if mode < 4:
         nt = rng.weighted([(4, 2), (4, 3), (2, 4)])
         progs = _publication(rng, nt, nexp)
@@ -205,7 +264,7 @@ def mon_true_before_trip(case, lines):
         elif k == K['INVOKE']:
             pending.pop(t, None)
             pending[('op', t)] = v
-        elif k == K['RET'] and pending.get(('op', t)) == IS_TRIPPED and t in pending:
+        elif k == K['RET'] and pending.get(('op', t)) in (IS_TRIPPED, S_IS_TRIPPED) and t in pending:
             if v == 1 and pending[t] not in stored:
                 return 'isTripped of thread %d returned true at trace line %d before any trigger of line obj%d was destroyed' % (t, i, pending[t])
     return None
@@ -231,7 +290,7 @@ def mon_untripped(case, lines):
                 tripped.setdefault(o, i)
             elif o in tripped:
                 return 'thread %d read false from line obj%d at trace line %d after it was tripped/seen true at line %d' % (t, o, i, tripped[o])
-        elif k == K['RET'] and cur.get(t) == IS_TRIPPED and t in last_load:
+        elif k == K['RET'] and cur.get(t) in (IS_TRIPPED, S_IS_TRIPPED) and t in last_load:
             o2, v2 = last_load[t]
             if (v != 0) != (v2 != 0):
                 return 'isTripped of thread %d returned %d at trace line %d but the line obj%d held %d' % (t, v, i, o2, v2)
@@ -248,9 +307,10 @@ def mon_lines_independent(case, lines):
     fin = [l for l in lines if len(l) >= 1 and l[0] == -2]
     verdict = [l[1] for l in lines if len(l) >= 2 and l[0] == -1]
     if fin and verdict and verdict[0] == 0:
-        ntrue = sum(1 for x in fin[0][1:] if x != 0)
-        if ntrue != nstored:
-            return '%d line(s) were stored to but %d line(s) are true at the end: lines are not independent / one-way' % (nstored, ntrue)
+        ntrue = sum(1 for x in fin[0][1:] if x == 1)
+        nrel = sum(1 for x in fin[0][1:] if x == -1)      # released lines: the harness can no longer look at them
+        if not (ntrue <= nstored <= ntrue + nrel):
+            return '%d line(s) were stored to but %d line(s) are true at the end (%d released): lines are not independent / one-way' % (nstored, ntrue, nrel)
     for _, t, opc, evs, ret in _ops(lines):
         n = sum(1 for _, l in evs if l[1] == K['STORE'])
         if opc == DESTROY and n > 1:
@@ -271,19 +331,40 @@ def mon_index_range(case, lines):
         if j >= len(prog) or prog[j][0] != opc:
             continue
         o = prog[j]
-        if opc in (MK_I, DET_I) and o[2] >= count and ret is not None and ret == ('ret', 0):
+        if opc in (MK_I, DET_I, SDET_I) and o[2] >= count and ret is not None and ret == ('ret', 0):
             return 'thread %d: op %s with index %d >= %d returned normally instead of throwing' % (t, o, o[2], count)
     return None
 
 
 def mon_moved_from(case, lines):
-    """a moved-from trigger trips nothing: per thread, the number of stores never exceeds the number of
-    successfully attached triggers (moves create no new duty)"""
-    made, stores = {}, {}
-    for _, t, opc, evs, ret in _ops(lines):
-        if opc in (MK_E, MK_D, MK_I) and ret == ('ret', 0):
-            made[t] = made.get(t, 0) + 1
+    """moving a trigger transfers the duty to trip: the moved-from object trips nothing when it is destroyed, the object
+    that received the line does.  Per thread, follow which trigger objects hold a line through the operations that
+    succeeded (return value 0) and compare with the stores each destruction performs; also, the number of stores never
+    exceeds the number of triggers ever attached (moves create no new duty)."""
+    made, stores, slots, ptr = {}, {}, {}, {}
+    for i0, t, opc, evs, ret in _ops(lines):
+        prog = case['progs'][t] if t < len(case['progs']) else []
+        j = ptr.get(t, 0)
+        ptr[t] = j + 1
+        o = prog[j] if j < len(prog) and prog[j][0] == opc else None
+        sl = slots.setdefault(t, {})
         n = sum(1 for _, l in evs if l[1] == K['STORE'])
+        ok = ret == ('ret', 0)
+        if opc in (MK_E, MK_D, MK_I) and ok:
+            made[t] = made.get(t, 0) + 1
+            if o:
+                sl[o[1]] = True
+        elif opc in (MOVE_C, MOVE_A) and ok and o:
+            sl[o[2]] = sl.get(o[1], False)
+            sl[o[1]] = False
+        elif opc == DESTROY and o and ret is not None and ret[0] == 'ret' and ret[1] == 0 and o[1] in sl:
+            holds = sl.pop(o[1])
+            if not holds and n > 0:
+                return ('thread %d destroyed the moved-from trigger in slot %d (trace line %d) and it tripped a line: the duty had been '
+                        'transferred to another object' % (t, o[1], i0))
+            if holds and n == 0:
+                return ('thread %d destroyed the trigger in slot %d (trace line %d), which holds a line, and nothing was stored: '
+                        'the duty to trip was lost' % (t, o[1], i0))
         stores[t] = stores.get(t, 0) + n
         if stores[t] > made.get(t, 0):
             return 'thread %d tripped %d times with only %d triggers ever attached: a moved-from trigger tripped a line' % (t, stores[t], made.get(t, 0))
@@ -303,7 +384,7 @@ def mon_publication(case, lines):
         if o[0] == WRITE and o[1] == 0:
             last = o[2]
     for _, t, opc, evs, ret in _ops(lines):
-        if t != 0 and opc == POLL_READ and ret is not None and ret[0] == 'ret' and ret[1] != -1 and last is not None:
+        if t != 0 and opc in (POLL_READ, S_POLL_READ) and ret is not None and ret[0] == 'ret' and ret[1] != -1 and last is not None:
             if ret[1] != last:
                 return 'thread %d observed the line tripped but read %d, the publisher wrote %d before tripping' % (t, ret[1], last)
     return None
@@ -324,6 +405,43 @@ def mon_mo_weakened(case, lines):
     return None
 
 
+def mon_no_acquire_load(case, lines):
+    """publication clause: a thread may take a line for tripped (isTripped returns true / the guarded datum is read)
+    only on the strength of an atomic load of the line with order >= acquire in that same operation - or, at the
+    very least, of such a load returning true that this same thread performed earlier (then it already synchronised).
+    An answer handed over through anything else (a cached flag in a detector object shared between threads) carries
+    no happens-before edge from the trip to this thread."""
+    ptr, line_of, acquired = {}, {}, {}
+    for i0, t, opc, evs, ret in _ops(lines):
+        prog = case['progs'][t] if t < len(case['progs']) else []
+        j = ptr.get(t, 0)
+        ptr[t] = j + 1
+        if opc not in POLL_OPS or j >= len(prog) or prog[j][0] != opc or len(prog[j]) < 2:
+            continue
+        key = ('s', prog[j][1]) if opc in (S_IS_TRIPPED, S_POLL_READ) else ('t', t, prog[j][1])
+        acq = False
+        for _, l in evs:
+            if l[1] == K['LOAD']:
+                line_of[key] = l[2]
+                if l[4] in (MO_ACQUIRE, MO_ACQ_REL, MO_SEQ_CST):
+                    acq = True
+                    if l[3] != 0:
+                        acquired.setdefault(t, set()).add(l[2])
+        if opc in (IS_TRIPPED, S_IS_TRIPPED):
+            positive = ret == ('ret', 1)
+        else:
+            positive = any(l[1] == K['RD_BEGIN'] for _, l in evs)
+        if positive and not acq:
+            line = line_of.get(key)
+            if line is None or line not in acquired.get(t, set()):
+                return ('operation %s of thread %d (trace line %d) took the line for tripped without an acquire load of it, and thread %d '
+                        'never acquired a true value from that line itself: nothing orders the publisher\'s writes before this '
+                        'thread\'s reads. Model-level failing history (theorem tw_relaxed_refuted, load side): t0: trigger on line; '
+                        'write datum; destroy trigger | t1: detector; isTripped reads true WITHOUT acquire; read datum  ==> data race'
+                        % (prog[j], t, i0, t))
+    return None
+
+
 def mon_crash(case, lines):
     for l in lines:
         if len(l) >= 2 and l[0] == -1 and l[1] == 3:
@@ -336,5 +454,5 @@ def mon_crash(case, lines):
 MONITORS = {
     'true_before_trip': mon_true_before_trip, 'untripped': mon_untripped, 'lines_independent': mon_lines_independent,
     'index_range': mon_index_range, 'moved_from': mon_moved_from, 'publication': mon_publication,
-    'mo_weakened': mon_mo_weakened, 'crash': mon_crash,
+    'mo_weakened': mon_mo_weakened, 'no_acquire_load': mon_no_acquire_load, 'crash': mon_crash,
 }
